@@ -2,6 +2,7 @@ package rules
 
 import (
 	"go/ast"
+	"go/types"
 	"go/parser"
 	"go/token"
 	"strings"
@@ -163,7 +164,7 @@ func canonText(s string, neg bool) string {
 	// the placeholders of the normal form ($n numbered locals, #n loop positions) are not Go identifiers
 	enc := strings.NewReplacer("$", "DOLLAR_", "#", "HASH_").Replace(s)
 	if e, err := parser.ParseExpr(enc); err == nil {
-		out = strings.NewReplacer("DOLLAR_", "$", "HASH_", "#").Replace(canonCond(e, neg))
+		out = strings.NewReplacer("DOLLAR_", "$", "HASH_", "#").Replace(canonCondWith(e, neg, nospaceLit))
 	} else if neg {
 		out = "!(" + s + ")"
 	}
@@ -368,4 +369,33 @@ func inlineLocals(fd *ast.FuncDecl, keep map[string]bool) func(e ast.Expr) strin
 		return nospace(e)
 	}
 	return func(e ast.Expr) string { return render(e, 0) }
+}
+
+// nospaceLit renders an expression without blanks, except inside string and character literals (which nospace strips too).
+func nospaceLit(e ast.Expr) string {
+	s := types.ExprString(e)
+	var b strings.Builder
+	inStr := byte(0)
+	for i := 0; i < len(s); i++ {
+		ch := s[i]
+		if inStr != 0 {
+			b.WriteByte(ch)
+			if ch == '\\' && inStr != '`' && i+1 < len(s) {
+				i++
+				b.WriteByte(s[i])
+			} else if ch == inStr {
+				inStr = 0
+			}
+			continue
+		}
+		switch ch {
+		case '"', '\'', '`':
+			inStr = ch
+			b.WriteByte(ch)
+		case ' ', '\t', '\n':
+		default:
+			b.WriteByte(ch)
+		}
+	}
+	return b.String()
 }
